@@ -280,7 +280,7 @@ def cases(tier, seed):
         if "default" not in outmodes or name == "chef_builtin":
             continue
         for pf in (("parent", "rel"), ("else", "abs")):
-            for nm_ in (1, 2, 3):
+            for nm_ in (1, 2, 3, 4):
                 out.append({"tool": name, "outmode": "default", "opt": 0, "pathform": list(pf), "faults": False, "broken": False,
                             "seed": seed, "names": nm_, "w": 1})
     # histories: the same tool twice into the SAME output path with different options (an output that already exists,
@@ -314,7 +314,8 @@ class Env(object):
     """fresh input trees for one execution"""
 
     NAMES = [("plt00010", "plt00020", "chk00005"), ("plt_t0.25", "plt_t0.50", "chk00005.old"), ("run_plt00010", "x.plt", "flame_chk00012"),
-             ("plt00010_ck", "plt00020_ck", "chk00005_ck")]       # (a cooked plotfile cooked again: the default suffix is already there)
+             ("plt00010_ck", "plt00020_ck", "chk00005_ck"),
+             ("plt00100", "plt00100", "chk00100")]       # (a cooked plotfile cooked again: the default suffix is already there)
 
     def __init__(self, workdir, kind, seed, tag, names=0):
         n1, n2, nchk = self.NAMES[names]
@@ -355,7 +356,12 @@ class Env(object):
             d2 = dict(d)
             d2["fields"] = ["Zvar", "density", "Y(H2)"]
             d2["seed"] = seed + 1
-            self.p2, _ = build(d2, self.indir, n2)
+            if n2 == n1:
+                # the same step of two runs: equal directory names, in sibling directories
+                os.makedirs(os.path.join(self.root, "in2"))
+                self.p2, _ = build(d2, os.path.join(self.root, "in2"), n2)
+            else:
+                self.p2, _ = build(d2, self.indir, n2)
             self.inputs = [self.p1, self.p2]
         for nm, txt in (("r.py", RECIPE), ("rbad.py", RECIPE_BAD)):
             with open(os.path.join(self.root, "recipes", nm), "w") as f:
